@@ -106,3 +106,86 @@ Proof.
     exact (IH w' a' (S i) Hinv' Hr Hk'). }
   exact (G ops w a 0 Hinv Hc Hk).
 Qed.
+
+(** * a concrete cache discipline: fill on load and on commit, evict at will
+    After a LoadMast and after a MakeRoot the top node of the tree concerned is put into the cache
+    under (store, format, key kind, name) - what loadPersisted and the commit step of flush do - and
+    then anything may be evicted ([ev]: any function of the step index and the name).  No coherence
+    hypothesis is needed any more: starting from a coherent (e.g. empty) cache, the discipline keeps
+    the cache coherent by itself, and the history is the cache-less history. *)
+Definition wadd (wc : wcache) (s : N) (f : nfmt) (kind : N) (h : name) (n : knode) : wcache :=
+  fun s' f' kind' => if (N.eqb s' s && match f', f with FBin, FBin | FV1, FV1 => true | _, _ => false end && N.eqb kind' kind)%bool
+                     then cadd (wc s' f' kind') h n else wc s' f' kind'.
+Definition wevict (wc : wcache) (drop : name -> bool) : wcache := fun s f kind => cevict (wc s f kind) drop.
+
+Definition fill (w' : world) (o : op) (wc : wcache) : wcache :=
+  let top (t : N) :=
+    match aget (w_trees w') t with
+    | Some tr => match m_root _ _ (t_m tr) with
+                 | LHash h n => wadd wc (c_store (t_cfg tr)) (c_fmt (t_cfg tr)) (c_kind (t_cfg tr)) h n
+                 | _ => wc
+                 end
+    | None => wc
+    end in
+  match o with
+  | OLoad _ t _ _ => top t
+  | OMakeRoot t _ => top t
+  | _ => wc
+  end.
+
+Fixpoint run_d (ev : nat -> name -> bool) (i : nat) (wc : wcache) (w : world) (ops : list op) : list (obs * list event) :=
+  match ops with
+  | [] => []
+  | o :: r => let '(w', ob, tr) := step_c wc w o in (ob, tr) :: run_d ev (S i) (wevict (fill w' o wc) (ev i)) w' r
+  end.
+
+Lemma wcoherent_wadd wc w s f kind h n : wcoherent wc w -> sto f (get_store w s) kind h n -> wcoherent (wadd wc s f kind h n) w.
+Proof.
+  intros Hc Hs s' f' kind'. unfold wadd.
+  destruct (N.eqb s' s) eqn:E1; cbn [andb]; [|apply Hc].
+  destruct (match f', f with FBin, FBin | FV1, FV1 => true | _, _ => false end) eqn:E2; cbn [andb]; [|apply Hc].
+  destruct (N.eqb kind' kind) eqn:E3; [|apply Hc].
+  apply N.eqb_eq in E1. apply N.eqb_eq in E3. subst s' kind'.
+  assert (f' = f) by (destruct f', f; try discriminate; reflexivity). subst f'.
+  apply coherent_add; [apply Hc|exact Hs].
+Qed.
+Lemma wcoherent_wevict wc w drop : wcoherent wc w -> wcoherent (wevict wc drop) w.
+Proof. intros Hc s f kind. apply coherent_evict. apply Hc. Qed.
+
+Lemma fill_coherent w' a' o wc : winv2 w' a' -> wcoherent wc w' -> wcoherent (fill w' o wc) w'.
+Proof.
+  intros [HT _] Hc.
+  assert (Htop : forall t, wcoherent (match aget (w_trees w') t with
+                  | Some tr => match m_root _ _ (t_m tr) with
+                               | LHash h n => wadd wc (c_store (t_cfg tr)) (c_fmt (t_cfg tr)) (c_kind (t_cfg tr)) h n
+                               | _ => wc end
+                  | None => wc end) w').
+  { intros t. specialize (HT t). destruct (aget (w_trees w') t) as [tr|]; [|exact Hc].
+    destruct (aget (fst a') t) as [x|]; [|contradiction]. destruct HT as (_ & Hcfg & Hall & _).
+    destruct (m_root _ _ (t_m tr)) as [|c|h n|h] eqn:Er; try exact Hc.
+    rewrite Hcfg. cbn [c_store c_fmt c_kind]. apply wcoherent_wadd; [exact Hc|].
+    unfold root_allh in Hall. rewrite Er in Hall. inversion Hall; subst. assumption. }
+  destruct o; try exact Hc; apply Htop.
+Qed.
+
+Theorem history_with_fill_and_evict : forall ops ev i wc w a,
+  winv2 w a -> conds w a ops -> wcoherent wc w -> run_d ev i wc w ops = run w ops.
+Proof.
+  induction ops as [|o r IH]; intros ev i wc w a Hinv Hc Hk; [reflexivity|].
+  cbn [conds] in Hc. destruct Hc as (Hs & Hn & Hr).
+  cbn [run_d run]. rewrite (step_c_transparent wc w a o Hinv Hs Hk).
+  pose proof (step_refines2 w a o Hinv Hs Hn) as Hst.
+  assert (Hno : match o with OCorrupt _ _ _ _ => False | _ => True end) by (destruct o; try exact I; cbn [sup] in Hs; contradiction).
+  pose proof (step_keeps_coherence wc w o Hno Hk) as Hk'.
+  destruct (step w o) as [[w' ob] tr]. destruct (astep2 a o) as [a' aob]. destruct Hst as [Hinv' _]. cbn [fst] in *.
+  f_equal. apply (IH ev (S i) _ w' a' Hinv' Hr).
+  apply wcoherent_wevict. exact (fill_coherent w' a' o wc Hinv' Hk').
+Qed.
+
+(** from the empty world with an empty cache *)
+Corollary history_with_cache_from_scratch ops ev :
+  conds empty_world ([], []) ops -> run_d ev 0 (fun _ _ _ => cempty) empty_world ops = run empty_world ops.
+Proof.
+  intros C. apply (history_with_fill_and_evict ops ev 0 _ empty_world ([], []) winv2_empty C).
+  intros s f kind. apply coherent_empty.
+Qed.
